@@ -125,8 +125,8 @@ func Exec(n *e2e.Node, ops []hx.T) (obs any, nontrivial bool, xtags []string, er
 				ty = "ghost"
 			}
 			mid++
-			pl, _ := json.Marshal(map[string]any{"T": o.Int(4), "N1": o.Int(2), "N2": o.Int(3), "Pad": o.Int(5),
-				"Mode": o.Int(6), "Ids": netIds(o.Ints(7))})
+			pl, _ := json.Marshal(map[string]any{"T": o.Int(4), "N1": o.Int(2), "N2": o.Int(3), "Pads": o.Ints(5),
+				"RPad": o.Int(6), "Mode": o.Int(7), "Ids": netIds(o.Ints(8))})
 			if e := c.cl.Request(mid, ty+".h.send", pl); e != nil {
 				return nil, false, nil, e
 			}
@@ -166,13 +166,13 @@ func Exec(n *e2e.Node, ops []hx.T) (obs any, nontrivial bool, xtags []string, er
 					continue
 				}
 				inst := e2e.InstOf(b.Svc)
-				if run != nil && run.Int(0) == inst && run.Int(1) == b.T &&
+				if run != nil && run.Int(0) == inst && run.Int(1) == b.T && run.Int(5) == int64(len(b.Pad)) &&
 					run.Int(2)+run.Int(4) == b.Seq && run.Int(3)+run.Int(4) == b.Ctr {
 					run.Args[4] = run.Int(4) + 1
 					continue
 				}
 				flush()
-				t := hx.C("EPush", inst, b.T, b.Seq, b.Ctr, 1)
+				t := hx.C("EPush", inst, b.T, b.Seq, b.Ctr, 1, len(b.Pad))
 				run = &t
 				nontrivial = true
 				continue
@@ -186,7 +186,7 @@ func Exec(n *e2e.Node, ops []hx.T) (obs any, nontrivial bool, xtags []string, er
 			case ev.Err:
 				evs = append(evs, "EErr")
 			case json.Unmarshal(ev.Data, &r) == nil && r.Kind == "sent":
-				evs = append(evs, hx.C("EResp", e2e.InstOf(r.Svc), r.T, r.Ctr))
+				evs = append(evs, hx.C("EResp", e2e.InstOf(r.Svc), r.T, r.Ctr, len(r.Pad)))
 			case json.Unmarshal(ev.Data, &r) == nil && r.Kind == "echo" && r.T == -1:
 				// answer of a routing-key request: not part of the observation
 			default:
